@@ -114,7 +114,8 @@ class Result:
                 raise MachineryError('dump has %d states, TLC reports %d' % (len(g.states), r.distinct))
         return r, g
 
-    def simulate_py(self, module, name, pyconsts, num, depth, spec='SSpec', invariants=(), properties=(), timeout=600):
+    def simulate_py(self, module, name, pyconsts, num, depth, spec='SSpec', invariants=(), properties=(), timeout=600,
+                    parse=True, workers=1):
         """Random behaviours of a specification too large to dump (`tlc -simulate file=...,num=N -depth D`, invariants
         and action properties checked along the way).  `module` keeps the label of the last action, parameters
         included, in a variable `act` (TLC's behaviour files name the action only).  Returns (graph, paths): the union
@@ -139,8 +140,8 @@ class Result:
         out = os.path.join(self.scratch, 'sim_' + gen)
         shutil.rmtree(out, ignore_errors=True)
         os.makedirs(out)
-        r = tlc.run(gen, cfg, self.scratch, simulate='file=%s/b,num=%d' % (out, num), depth=depth, seed=self.seed,
-                    workers=1, timeout=timeout, module_dir=self.specdir)
+        r = tlc.run(gen, cfg, self.scratch, simulate=('file=%s/b,num=%d' % (out, num)) if parse else 'num=%d' % num, depth=depth,
+                    seed=self.seed, workers=workers, timeout=timeout, module_dir=self.specdir)
         rec = {'module': gen, 'config': name, 'mode': 'simulate num=%d depth=%d seed=%d' % (num, depth, self.seed),
                'constants': {k: str(v) for k, v in consts.items()}, 'invariants': list(invariants), 'properties': list(properties),
                'states_generated': r.states, 'wall_s': round(r.wall, 1), 'result': 'ok' if r.ok else r.violated}
@@ -149,6 +150,10 @@ class Result:
             raise MachineryError('intended model %s/%s does not satisfy its own properties in simulation (%s) — '
                                  'specification bug\n%s' % (module, name, r.violated, r.out[-4000:]))
         self.transitions += r.states or 0
+        if not parse:           # model-level exploration only: nothing to replay
+            shutil.rmtree(out, ignore_errors=True)
+            rec['behaviours'] = num
+            return None, []
         g = graphmod.Graph()
         ids = {}
         paths = []
